@@ -23,6 +23,19 @@ class BadStr(Exception):
         raise RuntimeError('str() of this exception fails')
 
 
+class StreamWrapper:
+    """What a test may wrap a std stream in for the rest of the process."""
+
+    def __init__(self, stream):
+        self._stream = stream
+
+    def write(self, data):
+        return self._stream.write(data)
+
+    def __getattr__(self, name):
+        return getattr(self._stream, name)
+
+
 class Unhashable(Exception):
     """A legal exception class that cannot be put into a set (defines __eq__, no __hash__)."""
 
@@ -167,6 +180,14 @@ def _act(r, i, e, occ):
             signal.signal(signal.SIGSEGV, signal.SIG_DFL)
             os.kill(os.getpid(), signal.SIGSEGV)
         os._exit(9)
+    if a == 'wrap_stdout':
+        # a test installs a process-wide wrapper around the std streams and leaves it there
+        # (colorama.init(), a logging tee): from now on THAT is the stream everybody expects
+        if sys.stdout is r.orig_stdout and sys.stderr is r.orig_stderr:
+            r.emit([r.simpid, 'fault', 'wrap_stdout', i, 0])
+            sys.stdout = r.orig_stdout = StreamWrapper(sys.stdout)
+            sys.stderr = r.orig_stderr = StreamWrapper(sys.stderr)
+        return
     if a == 'chdir':
         # a test (or a test module at import) that changes the working directory for good
         r.emit([r.simpid, 'fault', 'chdir', i, 0])
